@@ -24,7 +24,7 @@ RULE = (
     "identity/composition/inverse/linearity/bijection/norm laws on the recorded results. Non-trivial: g != e and "
     "(>=2 distinct extents or k>=1); distinct by (entry, D, shape, k, p, n_lead)."
 )
-RULE += " Also: realistic sizes (64x64, 80x60, 16^3, ...), one reusable group-element buffer overwritten in place, int32 / NumPy / float64-under-x64 operands."
+RULE += " Narrow containers (uint8/uint16/int16/bool/float16/bfloat16 with small values) are compared by value with the defining formula. Also: realistic sizes (64x64, 80x60, 16^3, ...), one reusable group-element buffer overwritten in place, int32 / NumPy / float64-under-x64 operands."
 ASSUMPTIONS = [
     "reference action vmon/ref/action.py (self-tested: identity, composition, inverse, brute-force loops)",
     "float32 arithmetic on small integers is exact",
@@ -228,11 +228,15 @@ def run_single(case, ctx):
     if not viols and not case.get("large"):
         import jax
 
-        for rep in ("int32", "numpy", "float64-x64"):
+        # narrow containers (masks / raw sensor data / half precision): small values, so that the exact result is representable
+        # in whatever the library promotes to; an unsigned image with p=1 under an improper g has negative entries
+        for rep in ("int32", "numpy", "float64-x64", "uint8", "int16", "bfloat16", "uint16", "float16", "bool"):
             with (jax.enable_x64() if rep == "float64-x64" else contextlib.nullcontext()):
-                Ar = {"int32": lambda: jnp.asarray(A.astype(np.int32)), "numpy": lambda: A.astype(np.float32), "float64-x64": lambda: jnp.asarray(A.astype(np.float64) * (1 + 2.0**-40) + 2.0**-33)}[rep]()
+                Ar = {"int32": lambda: jnp.asarray(A.astype(np.int32)), "numpy": lambda: A.astype(np.float32), "float64-x64": lambda: jnp.asarray(A.astype(np.float64) * (1 + 2.0**-40) + 2.0**-33),
+                      "uint8": lambda: jnp.asarray(np.abs(A).astype(np.uint8)), "uint16": lambda: jnp.asarray(np.abs(A).astype(np.uint16)), "int16": lambda: jnp.asarray(A.astype(np.int16)),
+                      "bfloat16": lambda: jnp.asarray(A, dtype=jnp.bfloat16), "float16": lambda: jnp.asarray(A, dtype=jnp.float16), "bool": lambda: jnp.asarray(A > 0)}[rep]()
                 An = np.asarray(Ar)
-                for gi in rng.choice(len(G), size=min(len(G), 4), replace=False):
+                for gi in rng.choice(len(G), size=min(len(G), 4 if rep in ('int32', 'numpy', 'float64-x64') else 3), replace=False):
                     g = G[int(gi)]
                     try:
                         o = geom.times_group_element(D, Ar, p, g)
